@@ -31,6 +31,13 @@ type (
 		Inner int32 `frugal:"1,default,i32"`
 		Q     int64
 	}
+
+	// EmbHolder is embedded to check that a holder declared only inside an embedded
+	// struct is not taken for the outer struct's holder.
+	EmbHolder struct {
+		_unknownFields []byte
+		Z              int64
+	}
 )
 
 var namedGoTypes = map[string]reflect.Type{
@@ -120,10 +127,24 @@ func bindLocked(s *StructSpec) *Bound {
 		}
 		if s.Holder {
 			sf, ok := t.FieldByName("_unknownFields")
-			if !ok {
+			if !ok || len(sf.Index) != 1 {
 				panic("holder not found in " + s.Name)
 			}
 			b.holder = sf.Index[0]
+		}
+		for _, x := range s.Extras {
+			n := x.Name
+			switch x.Kind {
+			case 2:
+				n = "EmbPlain"
+			case 3:
+				n = "EmbHolder"
+			}
+			sf, ok := t.FieldByName(n)
+			if !ok || len(sf.Index) != 1 {
+				panic("extra " + n + " not found in " + s.Name)
+			}
+			b.extras = append(b.extras, sf.Index[0])
 		}
 		return b
 	}
@@ -139,6 +160,8 @@ func bindLocked(s *StructSpec) *Bound {
 		case 2:
 			sfs = append(sfs, reflect.StructField{Name: "EmbPlain", Anonymous: true, Type: reflect.TypeOf(EmbPlain{}),
 				Tag: reflect.StructTag(`frugal:"` + x.tagBody() + `"`)})
+		case 3:
+			sfs = append(sfs, reflect.StructField{Name: "EmbHolder", Anonymous: true, Type: reflect.TypeOf(EmbHolder{})})
 		}
 		b.extras = append(b.extras, len(sfs)-1)
 	}
@@ -357,7 +380,11 @@ func (b *Bound) SetExtras(rv reflect.Value) {
 		case reflect.Int32:
 			*(*int32)(p) = 0x5EED1234
 		case reflect.Struct:
-			*(*EmbPlain)(p) = EmbPlain{Inner: 0x0BADF00D, Q: -0x123456789}
+			if f.Type() == reflect.TypeOf(EmbHolder{}) {
+				*(*EmbHolder)(p) = EmbHolder{Z: 0x7A7A7A7A7A7A}
+			} else {
+				*(*EmbPlain)(p) = EmbPlain{Inner: 0x0BADF00D, Q: -0x123456789}
+			}
 		}
 	}
 }
@@ -374,7 +401,12 @@ func (b *Bound) CheckExtras(rv reflect.Value) error {
 		case reflect.Int32:
 			ok = *(*int32)(p) == 0x5EED1234
 		case reflect.Struct:
-			ok = *(*EmbPlain)(p) == EmbPlain{Inner: 0x0BADF00D, Q: -0x123456789}
+			if f.Type() == reflect.TypeOf(EmbHolder{}) {
+				e := (*EmbHolder)(p)
+				ok = e._unknownFields == nil && e.Z == 0x7A7A7A7A7A7A
+			} else {
+				ok = *(*EmbPlain)(p) == EmbPlain{Inner: 0x0BADF00D, Q: -0x123456789}
+			}
 		}
 		if !ok {
 			return fmt.Errorf("ignored field %s was modified", b.Type.Field(i).Name)
